@@ -9,14 +9,20 @@
                              `has_overlap` on full spans, `coding_only`); the bins are the GENERATED `Gen.bins`
     subsetParent             _subset_parent 455-510 (uses the GENERATED `SingleInterval.parent_to_relative_pos`)
     buildNew                 _build_new_collection_from_query 512-539 (`to_dict` / `from_dict` on the new parent)
-    returnForIdQueries       _return_collection_for_id_queries 756-785
-    queryByGuids, queryByIntervalGuids (all / transcript / feature), queryByIdentifiers        787-974
+    returnForIdQueries       _return_collection_for_id_queries 756-785 (idQueryBounds = its min / max)
+    queryByGuids, queryByIntervalGuids (all / transcript / feature: ownerGuidsOf, ownerStep), queryByIdentifiers
+                                                                                                    787-974
     childQueryByGuids        GeneInterval / FeatureIntervalCollection / VariantIntervalCollection .query_by_guids
 
-  `raise X` = `throw (.doc X)`.  Three paths of the real code end in an INTERNAL error; they are mirrored by
+  `raise X` = `throw (.doc X)`.  Two paths of the real code end in an INTERNAL error; they are mirrored by
   `.attributeError` so that the correspondence is exact on them too (they are findings, see Props/C09.lean):
     * `child.is_coding` on a VariantIntervalCollection (no such attribute)                              F-C09a
     * `self.start` on a collection without bounds (empty, no located parent)                            F-C19f
+  Also mirrored as coded (findings): the end clamp `chromosome_location.end - 1` of `_subset_parent` (F-C09c),
+  `extract_sequence()` on a sequence-less parent (F-C09b), `VariantInterval.from_dict` dropping the parent (F-C08a,
+  constant `variantFromDictDropsParent`).  When /repo is repaired the model must follow:
+    F-C09a  `isCoding`: `.var => pure false`;   F-C09b  `subsetParent`: return the parent when it has no sequence;
+    F-C09c  `subsetParent`: `stop' := be`, `cre := p2r (stop' - 1) + 1`;   F-C08a  the constant := false.
 
   Modelled domain (the harness generates exactly this; anything else is refused by the driver):
     * all members were built on the collection's own parent (`strict_parent_compare` never fails);
@@ -321,7 +327,8 @@ def childQueryByGuids (par : Par) (c : Child) (ids : List Nat) : QR (Option Chil
   match hullOf (txs.map fun g => (g.start, g.stop)) with
   | none => pure none
   | some (a, b) =>
-      let dup := decide ((txs.map GChild.guid).eraseDups.length ≠ txs.length)
+      -- `if tx.guid in self.guid_map: raise Duplicate…Error`
+      let dup := decide (¬ (txs.map GChild.guid).Nodup)
       match c.kind with
       | .var =>
           -- sorted by start; adjacent `has_overlap` → LocationOverlapException (a variant overlaps its own copy)
@@ -333,22 +340,33 @@ def childQueryByGuids (par : Par) (c : Child) (ids : List Nat) : QR (Option Chil
           if dup then throw (.doc .InvalidAnnotation)      -- DuplicateTranscriptError / DuplicateFeatureError
           else pure (some { c with gcs := txs, start := a, stop := b })
 
+/-- a Python set of guids, in some order without repetition -/
+def dedup : List Nat → List Nat
+  | [] => []
+  | x :: xs => if (dedup xs).contains x then dedup xs else x :: dedup xs
+
 /-- `_child_interval_guid_map`: grandchild guid ↦ its child (last wins) -/
 def intervalOwner (src : Source) (g : Nat) : Option Child :=
   (iterChildren src).reverse.find? (fun c => c.gcs.any (fun x => x.guid == g))
 
-/-- `query_by_interval_guids` (kinds = all three) and its typed variants.  The real code collects the owners'
-    guids in Python sets; their iteration order is not modelled — results are compared as sets of members. -/
+/-- the guids collected in `gene_guids_to_keep` / `features_collection_guids_to_keep` /
+    `variant_collection_guids_to_keep` (Python sets; their iteration order is not modelled — results are
+    compared as sets of members) -/
+def ownerGuidsOf (src : Source) (kinds : List Kind) (ids : List Nat) : List Nat :=
+  dedup (((ids.filterMap (intervalOwner src)).filter (fun c => kinds.contains c.kind)).map Child.guid)
+
+/-- `self.guid_map[x].query_by_guids(ids)` for one collected guid -/
+def ownerStep (src : Source) (ids : List Nat) (g : Nat) : QR Child :=
+  match dictGet Child.guid (iterChildren src) g with
+  | some c => (do
+      match (← childQueryByGuids src.par c ids) with
+      | some c' => pure c'
+      | none => throw .typeError)                        -- `None.to_dict()`; unreachable: an owner has a hit
+  | none => throw .typeError
+
+/-- `query_by_interval_guids` (kinds = all three) and its typed variants. -/
 def queryByIntervalGuids (src : Source) (kinds : List Kind) (ids : List Nat) : QR Result := do
-  let owners := (ids.filterMap (intervalOwner src)).filter (fun c => kinds.contains c.kind)
-  let ownerGuids := (owners.map Child.guid).eraseDups
-  let kept ← mapQ (fun g =>
-      match dictGet Child.guid (iterChildren src) g with
-      | some c => (do
-          match (← childQueryByGuids src.par c ids) with
-          | some c' => pure c'
-          | none => throw .typeError)                      -- `None.to_dict()`; unreachable: an owner has a hit
-      | none => throw .typeError) ownerGuids
+  let kept ← mapQ (ownerStep src ids) (ownerGuidsOf src kinds ids)
   returnForIdQueries src kept
 
 /-- `query_by_feature_identifiers` -/
